@@ -515,9 +515,11 @@ func (ch *Chain) ExportImport() (same bool, err error) {
 	f2, ctx2 := newFixture(false)
 	*f2.PanicTo = *f.PanicTo
 	ctx2 = ctx2.WithBlockHeader(ch.Ctx.BlockHeader())
-	f2.Account.InitGenesis(ctx2, *f.Account.ExportGenesis(ch.Ctx))
-	f2.Bank.InitGenesis(ctx2, f.Bank.ExportGenesis(ch.Ctx))
-	updates := f2.Child.InitGenesis(ctx2, &gs2)
+	// InitChain runs the modules' InitGenesis on a context whose block height is 0 (initial height 1); blocks then continue
+	initCtx := ctx2.WithBlockHeight(0)
+	f2.Account.InitGenesis(initCtx, *f.Account.ExportGenesis(ch.Ctx))
+	f2.Bank.InitGenesis(initCtx, f.Bank.ExportGenesis(ch.Ctx))
+	updates := f2.Child.InitGenesis(initCtx, &gs2)
 	bz3, err := f2.Cdc.MarshalJSON(f2.Child.ExportGenesis(ctx2))
 	if err != nil {
 		return false, err
